@@ -7,7 +7,6 @@ package capnp
 
 //@ func Message.segment -> seg, err
 //@   props C05
-//@   trusted
 //@   requires m != nil && m.Arena != nil
 //@   modifies Message.segs Message.firstSeg Segment.id Segment.msg Segment.data m:map[capnproto.org/go/capnp/v3.SegmentID]*capnproto.org/go/capnp/v3.Segment
 //@   ensures implies(err != nil, seg == nil)
@@ -15,7 +14,6 @@ package capnp
 
 //@ func Message.NumSegments -> n
 //@   props C05
-//@   trusted
 //@   requires m != nil && m.Arena != nil
 //@   modifies nothing
 //@   -- "NumSegments ... must not be larger than 1<<32" (Arena documentation)
